@@ -264,6 +264,8 @@ pub struct WorldCfg {
 	pub reorg_pct: u64,
 	/// bias spends and locks to sit exactly on the maturity / lock-height / NRD thresholds
 	pub boundary_bias: bool,
+	/// side branches fork off within this many blocks of the trunk tip (0 = anywhere recent)
+	pub fork_near_tip: u64,
 }
 
 impl WorldCfg {
@@ -283,6 +285,7 @@ impl WorldCfg {
 			free_difficulty: false,
 			reorg_pct: 50,
 			boundary_bias: false,
+			fork_near_tip: 0,
 		}
 	}
 }
@@ -745,7 +748,11 @@ impl World {
 				.map(|b| b.id)
 				.collect();
 			let max_h = self.blocks[self.tip_of_branch(0)].height;
-			let lo_h = max_h.saturating_sub(self.cfg.max_branch_depth + 4);
+			let lo_h = if self.cfg.fork_near_tip > 0 {
+				max_h.saturating_sub(self.cfg.fork_near_tip)
+			} else {
+				max_h.saturating_sub(self.cfg.max_branch_depth + 4)
+			};
 			let cands: Vec<usize> = trunk_ids
 				.into_iter()
 				.filter(|id| self.blocks[*id].height >= lo_h && self.blocks[*id].height < max_h)
